@@ -305,7 +305,39 @@ def run_calls(script, groups, nulls, discrete, calls, seconds=10.0):
     finally:
         signal.setitimer(signal.ITIMER_REAL, 0)
         signal.signal(signal.SIGALRM, old)
+    try:
+        _remap_after_done(wd, sim, w, groups, len(used))
+    except mgr.Hang:
+        pass
     return wd, ["ok", entries], used
+
+
+def _remap_after_done(wd, sim, w, groups, ncalls):
+    """after the calls (nothing here reaches the model; seeded change C14-r6m2): a super agent all of whose covered
+    agents are done has been asked `get_done`; the mapping is then re-assigned through the public setter so that it also
+    covers a learning agent that is NOT done; "a super agent is done exactly when all its covered agents are done" -
+    `get_done` must answer False at once, whatever it answered before."""
+    if ncalls % 2 or not groups:
+        return
+    covered = {c for g in groups for c in g}
+    live = [i for i in range(sim.n) if sim.learning[i] and i not in covered and not sim.get_done(stub_sim.agent_id(i))]
+    if not live:
+        return
+    for gi, g in enumerate(groups):
+        if g and all(sim.get_done(stub_sim.agent_id(c)) for c in g):
+            st, val = _call(lambda: w.get_done(sid(gi)))
+            if st != "ok" or not val:
+                return
+            mapping = {sid(i): [stub_sim.agent_id(c) for c in gg] for i, gg in enumerate(groups)}
+            mapping[sid(gi)] = mapping[sid(gi)] + [stub_sim.agent_id(live[0])]
+            st, _ = _call(lambda: setattr(w, "super_agent_mapping", mapping))
+            if st != "ok":
+                return
+            st, val = _call(lambda: w.get_done(sid(gi)))
+            if st == "ok" and val:
+                wd.failures.append("a super agent that was done is still reported done after its mapping was re-assigned "
+                                   "to cover an agent that is not done (super agent %d, agent %d)" % (gi, live[0]))
+            return
 
 
 # ---------------------------------------------------------------------------------------------
